@@ -14,8 +14,24 @@ Streams (all deterministic from ctx.rng):
   addrs    incoming addresses that collide under a normalisation (leading zeros, case, white space, port mod 65536 ...)
   wide     one record with hundreds of attributes, one patch with hundreds of entries, long values
   scale    thousands of records (distinct IPs / one IP many ports / mixed, identified fraction 0 ... 1): len, identity,
-           ids, members and attributes of old / middle / new records, re-lookups of the oldest ones
+           ids, members and attributes of old / middle / new records, re-lookups of the oldest ones; 10 000 records in
+           quick / 33 000 in thorough (oracle only beyond what the cubic list model follows; the storage's own lookup is a
+           linear scan, n records cost n^2 / 2 comparisons)
+  shapes   ARGUMENT PROVENANCE of the peer address: every shape a transport / caller can hand over - (host, port),
+           the AF_INET6 4-tuple (host, port, flowinfo, scope_id) of asyncio (equal in all / differing in flowinfo, scope id,
+           port, host), lists, namedtuples, str / int subclasses, port as text / float / bool, 1- / 3- / 5-tuples, bytes
+           host, None, a bare str: two addresses are the same peer iff they are EQUAL as Python compares them; every ordered
+           pair of shapes in one history, random histories over pools of shapes; patches of other mapping types
+  errors   ERROR-PATH STATE: calls that raise at every operation kind (patch keys that are no str at the first / a middle /
+           the last position, patches that are no mapping: list of pairs, str, set, None, int, generator; unhashable
+           attribute keys, names that are no str, None / int / wrong-arity addresses), on seen and unseen addresses, with and
+           without auto-create, as the FIRST call on a fresh storage, twice in a row - after which the history continues
+           and every invariant and every earlier record is re-checked (the model follows: Op.matchIncomingBad / saveBad /
+           patchBad apply the entries before the offending one and raise)
+  ambient  a fixed small sample of the oracle with the root logger at DEBUG, sys.stdout replaced by a writer that raises,
+           `random` reseeded between steps, and once in a child `python -O` process
 """
+import collections
 import importlib
 import itertools
 import json
@@ -52,13 +68,40 @@ def cps(s: str) -> str:
     return ".".join(str(ord(c)) for c in s)
 
 
+# shapes of a peer address other than the plain (str, int) tuple (argument provenance)
+Addr2 = collections.namedtuple("Addr2", "host port")
+Addr4 = collections.namedtuple("Addr4", "host port flowinfo scope_id")
+
+
+class Str(str):
+    """a str subclass instance (enum members with a str mixin, wrappers): equal to the plain str"""
+
+    __slots__ = ()
+
+
+class Int(int):
+    """an int subclass instance (IntEnum members, numpy-like wrappers): equal to the plain int"""
+
+    __slots__ = ()
+
+
+def _nat(x) -> bool:
+    return type(x) is int and x >= 0
+
+
 def in_alphabet(v) -> bool:
-    """assumption A2: the values the model knows"""
+    """assumption A2: the values the model knows (Val of Model/Storage.lean)"""
     if v is None or isinstance(v, (bool, str, _uuid.UUID)):
         return True
     if isinstance(v, int):
         return v >= 0
-    return isinstance(v, tuple) and len(v) == 2 and isinstance(v[0], str) and type(v[1]) is int and v[1] >= 0
+    if isinstance(v, tuple):  # namedtuples compare as tuples
+        if len(v) == 2 and isinstance(v[0], str) and isinstance(v[1], str):
+            return True  # (host, port as text)
+        return len(v) >= 1 and isinstance(v[0], str) and all(_nat(x) for x in v[1:])
+    if type(v) is list:
+        return len(v) >= 1 and isinstance(v[0], str) and all(_nat(x) for x in v[1:])
+    return False
 
 
 _CVAL = {}
@@ -89,8 +132,14 @@ def _cval(v) -> str:
         return "s" + cps(v)
     if isinstance(v, _uuid.UUID):
         return f"u{v.int}"
-    if in_alphabet(v):
-        return "a" + cps(v[0]) + ":" + str(v[1])
+    if isinstance(v, tuple) and in_alphabet(v):
+        if len(v) == 2 and isinstance(v[1], str):
+            return "c" + cps(v[0]) + ":" + cps(v[1])
+        if len(v) == 2:
+            return "a" + cps(v[0]) + ":" + str(v[1])
+        return "t" + cps(v[0]) + "".join(f":{x}" for x in v[1:])  # arity != 2: the AF_INET6 4-tuple, 1- / 3-tuples
+    if type(v) is list and in_alphabet(v):
+        return "l" + cps(v[0]) + "".join(f":{x}" for x in v[1:])
     return "?" + type(v).__name__  # outside the modelled alphabet: such histories never reach the model
 
 
@@ -101,6 +150,8 @@ _CKEY = {}
 
 
 def ckey(k: str) -> str:
+    if not isinstance(k, str):
+        return "?key"  # a key that is no str: outside the model (attr / delete_attr); patches: see cpatch
     r = _CKEY.get(k)
     if r is None:
         if len(_CKEY) > 200000:
@@ -117,10 +168,120 @@ def _ckey(k: str) -> str:
     return "".join(c if c in _SAFE else f"%{ord(c):06x}" for c in k)
 
 
-def cpatch(p: dict) -> str:
-    if not p:
-        return "-"
-    return ",".join(f"{ckey(k)}={cval(v)}" for k, v in p.items())
+class Px:
+    """a patch argument that is no plain dict; built afresh for every call.  Mappings that are no dict behave as a dict
+    (`len`, `.items()`): 'ordered', 'dictsub', 'defaultdict', 'proxy' (MappingProxyType), 'userdict', 'chainmap'.  Sized
+    objects without `.items()`: 'pairs' (list of pairs), 'tpairs', 'str', 'set', 'bytes'.  Unsized: 'none', 'int', 'gen'.
+    'failing': a dict whose `.items()` yields all its entries and then raises RuntimeError (an exception of another class in
+    the middle of Repeater.patch)."""
+
+    MAPPINGS = ("ordered", "dictsub", "defaultdict", "proxy", "userdict", "chainmap", "failing")
+    SIZED = ("pairs", "tpairs", "str", "set", "bytes")
+    UNSIZED = ("none", "int", "gen")
+
+    class DictSub(dict):
+        pass
+
+    class Failing(dict):
+        def items(self):
+            yield from dict.items(self)
+            raise RuntimeError("the mapping failed while it was iterated")
+
+    def __init__(self, kind, items=()):
+        assert kind in self.MAPPINGS + self.SIZED + self.UNSIZED, kind
+        self.kind, self.items = kind, [tuple(kv) for kv in items]
+
+    def __repr__(self):
+        return f"Px({self.kind!r}, {self.items!r})"
+
+    def __eq__(self, other):
+        return isinstance(other, Px) and (self.kind, self.items) == (other.kind, other.items)
+
+    __hash__ = None
+
+    def make(self):
+        k, it = self.kind, list(self.items)
+        if k == "ordered":
+            return collections.OrderedDict(it)
+        if k == "dictsub":
+            return Px.DictSub(it)
+        if k == "failing":
+            return Px.Failing(it)
+        if k == "defaultdict":
+            d = collections.defaultdict(int)
+            d.update(it)
+            return d
+        if k == "proxy":
+            return types.MappingProxyType(dict(it))
+        if k == "userdict":
+            return collections.UserDict(dict(it))
+        if k == "chainmap":
+            return collections.ChainMap(dict(it))
+        if k == "pairs":
+            return it
+        if k == "tpairs":
+            return tuple(it)
+        if k == "str":
+            return "ab"[: len(it)]
+        if k == "bytes":
+            return b"ab"[: len(it)]
+        if k == "set":
+            return {a for a, _ in it}
+        if k == "none":
+            return None
+        if k == "int":
+            return len(it)
+        return (kv for kv in it)  # 'gen'
+
+    def entries(self):
+        return list(self.items) if self.kind in self.MAPPINGS else None
+
+    def sized_len(self):
+        if self.kind in self.UNSIZED:
+            return None
+        return min(len(self.items), 2) if self.kind in ("str", "bytes") else len(self.items)
+
+
+def patch_items(p):
+    """the (key, value) pairs `patch.items()` yields, or None if the argument has no such method"""
+    if isinstance(p, dict):
+        return list(p.items())
+    if isinstance(p, Px):
+        return p.entries()
+    return None
+
+
+def wellformed(p) -> bool:
+    """a mapping whose keys are all str: `Repeater.patch` cannot raise on it"""
+    items = patch_items(p)
+    return items is not None and all(isinstance(k, str) for k, _ in items) and not (isinstance(p, Px) and p.kind == "failing")
+
+
+def str_entries(p) -> dict:
+    """the entries of the patch argument that name something (str keys), as a dict"""
+    return {k: v for k, v in (patch_items(p) or []) if isinstance(k, str)}
+
+
+def make_patch(p):
+    return dict(p) if isinstance(p, dict) else p.make()
+
+
+def cpatch(p) -> str:
+    """canonical text of a patch argument (Driver/Storage.lean `parsePatchArg`): the entries in order; `!T` in place of the
+    first key that is no str (TypeError there, the entries before it applied); `!A` for a non-empty sized object that is no
+    mapping (AttributeError before any entry); unsized / empty non-mappings are outside the model"""
+    items = patch_items(p)
+    if items is None:
+        return "!A" if p.sized_len() else "?patch"
+    if isinstance(p, Px) and p.kind == "failing":
+        return "?patch"
+    out = []
+    for k, v in items:
+        if not isinstance(k, str):
+            out.append("!T")
+            break
+        out.append(f"{ckey(k)}={cval(v)}")
+    return ",".join(out) or "-"
 
 
 # ------------------------------------------------------------------------------------------------
@@ -130,9 +291,17 @@ def cpatch(p: dict) -> str:
 def fresh(v):
     """an equal value that is a different object where Python allows it (a lookup must compare by value: the peers'
     address tuples are new objects on every datagram)"""
-    if isinstance(v, tuple):
+    if isinstance(v, (Addr2, Addr4)):
+        return type(v)(*(fresh(x) for x in v))
+    if type(v) is tuple:
         return tuple(fresh(x) for x in v)
-    if isinstance(v, str) and len(v) > 1:
+    if type(v) is list:
+        return [fresh(x) for x in v]
+    if type(v) is Str:
+        return Str("".join(list(v)))
+    if type(v) is Int:
+        return Int(int(v))
+    if type(v) is str and len(v) > 1:
         return "".join(list(v))
     if type(v) is int and abs(v) > 256:
         return int(str(v))
@@ -144,14 +313,21 @@ def fresh(v):
 class Sut:
     """one RepeaterStorage + the list of objects it created, by creation index"""
 
+    hook = None  # called before every operation (ambient stream: reseeds `random`)
+
     def __init__(self):
         import okdmr.dmrlib.storage.repeater as rmod
         from okdmr.dmrlib.storage.repeater_storage import RepeaterStorage
 
         self.rmod = rmod
         self.saved_uuid = rmod.uuid
-        self.counter = itertools.count()
-        rmod.uuid = types.SimpleNamespace(uuid4=lambda: _uuid.UUID(int=next(self.counter)), UUID=_uuid.UUID)
+        self.uuid_next = 0  # the counter oracle: the id the next Repeater() gets
+
+        def uuid4():
+            self.uuid_next += 1
+            return _uuid.UUID(int=self.uuid_next - 1)
+
+        rmod.uuid = types.SimpleNamespace(uuid4=uuid4, UUID=_uuid.UUID)
         self.storage = RepeaterStorage()
         self.created = []
         self.by_id = {}  # id(object) -> creation index (the objects are kept alive by `created`)
@@ -211,22 +387,24 @@ class Sut:
         kind = op[0]
         st = self.storage
         pre = "pre-ok" if not (pre_flag and violates_pre(self, op)) else "pre-violated"
+        if Sut.hook is not None:
+            Sut.hook()
         try:
             if kind == "mi":
                 _, a, auto, p = op
                 line = f"mi {cval(a)} {int(auto)} {cpatch(p)}"
-                r = st.match_incoming(fresh(a), auto, dict(p))
+                r = st.match_incoming(fresh(a), auto, make_patch(p))
             elif kind == "save":
                 _, ref, p = op
                 line = f"save {'N' if ref is None else ref} {cpatch(p)}"
-                r = st.save(None if ref is None else self.created[ref], dict(p))
+                r = st.save(None if ref is None else self.created[ref], make_patch(p))
             elif kind == "ma":
                 _, name, v = op
-                line = f"ma {ckey(name)} {cval(v)}"
+                line = f"ma {ckey(name) if isinstance(name, str) else '!'} {cval(v)}"
                 r = st.match_attr(fresh(name), fresh(v))
             elif kind == "mip":
                 _, ip = op
-                line = f"mip {cps(ip) if ip else '-'}"
+                line = f"mip {(cps(ip) if ip else '-') if isinstance(ip, str) else '?ip'}"
                 r = st.match_ip_incoming(fresh(ip))
             elif kind == "mu":
                 _, v = op
@@ -243,7 +421,7 @@ class Sut:
             elif kind == "patch":
                 _, ref, p = op
                 line = f"patch {ref} {cpatch(p)}"
-                r = self.created[ref].patch(dict(p))
+                r = self.created[ref].patch(make_patch(p))
             else:
                 raise AssertionError(kind)
             out = self.res(r, kind)
@@ -259,18 +437,35 @@ class Sut:
 # the property, evaluated on the real code
 
 
-def patch_of(op):
+def raw_patch(op):
+    """the patch argument of the operation as given (a dict, a Px), None if the operation has none"""
     if op[0] == "mi":
         return op[3]
     if op[0] in ("save", "patch"):
         return op[2]
-    return {}
+    return None
+
+
+def patch_of(op):
+    """what the patch argument names: its entries with str keys (everything, for a well-formed patch)"""
+    p = raw_patch(op)
+    if p is None:
+        return {}
+    return p if type(p) is dict and wellformed(p) else str_entries(p)
+
+
+def hashable(k) -> bool:
+    try:
+        hash(k)
+    except TypeError:
+        return False
+    return True
 
 
 def named_keys(op):
     """the dynamic-attribute names an operation names"""
     if op[0] in ("attr", "del"):
-        return [op[2]]
+        return [op[2]] if hashable(op[2]) else []
     return [k for k in patch_of(op) if k not in FIELDS]
 
 
@@ -302,6 +497,22 @@ def fresh_fields(index, address):
 def same(a, b) -> bool:
     """equal, and of the same kind (1 / True / 1.0 and None / 0 are not interchangeable answers)"""
     return a == b and type(a) is type(b)
+
+
+def between(lo, hi, act) -> bool:
+    """a record after a patching call that RAISED: every data member / dynamic attribute has the value it had (`lo`) or the
+    value the patch names for it (`hi` = all named entries applied): exactly the named fields may have changed, to the
+    given values; nothing is deleted"""
+    (lf, la), (hf, ha), (af, aa) = lo, hi, act
+    if set(af) != set(lf) or any(not (af[k] == lf[k] or af[k] == hf[k]) for k in af):
+        return False
+    for k in set(la) | set(ha) | set(aa):
+        if k in aa:
+            if not ((k in la and aa[k] == la[k]) or (k in ha and aa[k] == ha[k])):
+                return False
+        elif k in la:
+            return False
+    return True
 
 
 def describe_difference(exp, act, diff):
@@ -349,7 +560,7 @@ class Oracle:
     def __init__(self, ctx, sut, history, watch_keys=(), tag=None):
         self.ctx, self.sut, self.history = ctx, sut, history
         self.tag = tag
-        self.last_for_addr = {}  # address -> (object, id) returned by match_incoming since the last address_in assignment
+        self.last_for_addr = []  # [address, object, id] returned by match_incoming since the last address_in assignment (addresses may be unhashable: compared with ==)
         self.n = 0
         # what attr(key) has to answer, per created object, from the operations alone (public API only);
         # `watch` = the keys read back: every key used so far plus the given siblings
@@ -376,6 +587,7 @@ class Oracle:
         self.len0 = len(sut.storage)
         self.snap0 = sut.snapshot()
         self.created0 = len(sut.created)
+        self.uuid0 = sut.uuid_next  # the id a record created by this operation gets
         self.all0 = sut.storage.all()
         if op[0] == "mi":
             # independent of match_attr: is there a stored record with this incoming address?
@@ -417,51 +629,74 @@ class Oracle:
             gone = [sut.index(o) for o in self.all0 if not any(o is x for x in all1)]
             self.fail("record-lost", f"{op[0]}: records {gone[:8]} stored before the operation are not stored after it (or the order changed)", expected=len(self.all0), actual=len(all1))
         # ---- a record is created only by an auto-creating lookup of an unseen address
-        creates = op[0] == "mi" and op[2] and not self.seen
-        exp_len = self.len0 + (1 if creates else 0)
+        praw = raw_patch(op)
+        malformed = praw is not None and not wellformed(praw)  # Repeater.patch / save can raise on it
+        creates = op[0] == "mi" and bool(op[2]) and not self.seen
+        created_now = 1 if creates else 0
+        if creates and raised and malformed:
+            # the call raised: it may or may not have stored the record it created (the unchanged code has)
+            if len(all1) == len(self.all0) + 1 and not any(all1[-1] is o for o in self.all0):
+                sut.index(all1[-1])
+            else:
+                created_now = 0
+        exp_len = self.len0 + created_now
         if len(sut.storage) != exp_len:
             kind = "lookup-grew-storage" if not (op[0] == "mi" and op[2]) else "creation-rule"
             self.fail(kind, f"len(storage) after {op[0]} is {len(sut.storage)}", expected=exp_len, actual=len(sut.storage))
-        if len(sut.created) != self.created0 + (1 if creates else 0):
-            self.fail("creation-rule", "an object unknown to the harness was returned / no object was created", expected=self.created0 + (1 if creates else 0), actual=len(sut.created))
+        if len(sut.created) != self.created0 + created_now:
+            self.fail("creation-rule", "an object unknown to the harness was returned / no object was created", expected=self.created0 + created_now, actual=len(sut.created))
         # ---- lookups: what is returned
         target = None
         if op[0] == "mi":
             if self.seen:
-                if raised or raw is not self.seen[0]:
+                if (raised and not malformed) or (not raised and raw is not self.seen[0]):
                     self.fail("wrong-record", "match_incoming of a stored address does not return that record", expected=f"obj{sut.index(self.seen[0])}", actual=sut.res(raw) if not raised else impl_error(raw))
                 target = self.seen[0]
             elif op[2]:
-                if raised or sut.index(raw) != self.created0:
+                if raised and malformed:
+                    if created_now and len(sut.created) == self.created0 + 1:
+                        target = sut.created[self.created0]
+                        self.snap0.append((fresh_fields(self.uuid0, op[1]), {}))
+                elif raised or sut.index(raw) != self.created0:
                     self.fail("creation-rule", "auto-creating lookup of an unseen address did not return a new record")
                 else:
                     target = raw
                     # what "a record is created" means: constructor defaults, the id of the oracle, this address
-                    self.snap0.append((fresh_fields(self.created0, op[1]), {}))
+                    self.snap0.append((fresh_fields(self.uuid0, op[1]), {}))
             else:
-                okres = (raw is None) if not op[3] else (raised and type(raw).__name__ == "AttributeError")
+                if malformed:
+                    okres = raised or raw is None
+                else:
+                    okres = (raw is None) if not patch_items(praw) else (raised and type(raw).__name__ == "AttributeError")
                 if not okres:
                     self.fail("wrong-record", "lookup of an unseen address without auto-create returned something", expected="None / AttributeError with a patch", actual=impl_error(raw) if raised else sut.res(raw))
             # same address -> same object, same id (no address_in assignment in between)
             if target is not None:
-                prev = self.last_for_addr.get(op[1])
-                if prev is not None and (prev[0] is not target or prev[1] != target.id):
-                    self.fail("identity-changed", "two lookups of the same incoming address returned different objects / ids", expected=f"obj{sut.index(prev[0])} {cval(prev[1])}", actual=f"obj{sut.index(target)} {cval(target.id)}")
+                prev = next((x for x in self.last_for_addr if x[0] == op[1]), None)
+                if prev is not None and (prev[1] is not target or prev[2] != target.id):
+                    self.fail("identity-changed", "two lookups of the same incoming address returned different objects / ids", expected=f"obj{sut.index(prev[1])} {cval(prev[2])}", actual=f"obj{sut.index(target)} {cval(target.id)}")
         elif op[0] in ("save", "patch", "attr", "del"):
             if op[1] is not None:
                 target = sut.created[op[1]]
         # ---- a patch changes exactly the named members/attributes of the matched record, nothing else
         snap1 = sut.snapshot()
         exp = [(dict(f), dict(a)) for f, a in self.snap0]
-        if not raised and target is not None:
+        partial = False
+        if target is not None and sut.index(target) < len(exp):
             ti = sut.index(target)
             p = patch_of(op)
-            if p:
-                exp[ti] = expected_after_patch(*exp[ti], p)
-            elif op[0] == "attr" and op[3] is not None:
-                exp[ti][1][op[2]] = op[3]
-            elif op[0] == "del":
-                exp[ti][1].pop(op[2], None)
+            if not raised:
+                if p:
+                    exp[ti] = expected_after_patch(*exp[ti], p)
+                elif op[0] == "attr" and op[3] is not None and hashable(op[2]):
+                    exp[ti][1][op[2]] = op[3]
+                elif op[0] == "del" and hashable(op[2]):
+                    exp[ti][1].pop(op[2], None)
+            elif malformed and p and ti < len(snap1) and between(exp[ti], expected_after_patch(*exp[ti], p), snap1[ti]):
+                # the call raised in the middle of the patch: some of the named entries are applied, exactly as given
+                # (an applied value may be == the old one and of another type, True over 1: the read-back mirror follows)
+                partial = True
+                exp[ti] = snap1[ti]
         if snap1 != exp:
             diff = [i for i in range(max(len(snap1), len(exp))) if i >= len(snap1) or i >= len(exp) or snap1[i] != exp[i]]
             for i in diff:
@@ -473,11 +708,16 @@ class Oracle:
                                 if nk != k:
                                     self.suspects.append((nk, k))
             e_txt, a_txt = describe_difference(exp, snap1, diff)
-            self.fail("patch-not-local", f"{op[0]}: records {diff[:8]} differ from 'exactly the named fields of the matched record changed'", expected=e_txt, actual=a_txt)
+            self.fail("patch-not-local", f"{op[0]}{' (raised ' + type(raw).__name__ + ')' if raised else ''}: records {diff[:8]} differ from 'exactly the named fields of the matched record changed'", expected=e_txt, actual=a_txt)
         # ---- the same through the public API: attr(key) of every record for every key in play
         while len(self.exp_attrs) < len(sut.created):
             self.exp_attrs.append({})
-        if target is not None and sut.index(target) >= 0:
+        if target is not None and sut.index(target) >= 0 and op[0] in ("attr", "del") and not hashable(op[2]):
+            # a key no dict can hold: nothing can be stored / found under it (whatever the call answers or raises,
+            # the snapshot comparison above has checked that nothing changed)
+            if not raised and raw not in (None, False):
+                self.fail("attribute-readback", f"{op[0]} with an unhashable key answered with a value", expected="an exception / None", actual=repr(raw))
+        elif target is not None and sut.index(target) >= 0:
             ti = sut.index(target)
             e = self.exp_attrs[ti]
             # what attr / delete_attr answer
@@ -504,6 +744,14 @@ class Oracle:
                 elif op[0] == "del":
                     self._watch(op[2])
                     e.pop(op[2], None)
+            elif partial:
+                # entries applied before the patch raised (validated by `between` above)
+                for k, v in patch_of(op).items():
+                    if k not in FIELDS:
+                        self._watch(k)
+                        got = target.attr(k)
+                        if got is not None:
+                            e[k] = got
         if len(sut.created) * len(self.watch) <= self.FULL_READBACK or self.n % 64 == 63:
             self.readback(op)
         else:
@@ -512,10 +760,14 @@ class Oracle:
             keys = list(dict.fromkeys(named_keys(op) + [self.watch[(self.n * 16 + j) % w] for j in range(16)]))
             self.readback(op, keys=keys)
         # ---- bookkeeping for the identity check
-        if "address_in" in patch_of(op) and not raised:
-            self.last_for_addr = {}
+        if "address_in" in patch_of(op) and (not raised or malformed):
+            self.last_for_addr = []
         elif op[0] == "mi" and target is not None:
-            self.last_for_addr[op[1]] = (target, target.id)
+            prev = next((x for x in self.last_for_addr if x[0] == op[1]), None)
+            if prev is None:
+                self.last_for_addr.append([op[1], target, target.id])
+            else:
+                prev[1], prev[2] = target, target.id
         self.n += 1
 
     def finish(self, probe=()):
@@ -622,17 +874,10 @@ def resolve(sut, op):
     return op
 
 
-def modelled(op) -> bool:
-    """every value of the operation is in the model's alphabet (A2)"""
-    if op[0] == "mi":
-        return in_alphabet(op[1]) and all(in_alphabet(v) for v in op[3].values())
-    if op[0] in ("save", "patch"):
-        return all(in_alphabet(v) for v in op[2].values())
-    if op[0] in ("ma", "attr"):
-        return in_alphabet(op[-1])
-    if op[0] == "mu":
-        return in_alphabet(op[1])
-    return True
+def modelled(line: str) -> bool:
+    """the operation is inside the model: every value in its alphabet (A2), keys str, patch argument a mapping or one of
+    the two modelled malformed kinds (everything else is printed with a `?` by cval / ckey / cpatch)"""
+    return "?" not in line
 
 
 def run_sequence(ctx, ops, pairs, stream, dump_every=0, watch=(), probe=(), tag=None, oracle_ctx=None):
@@ -644,6 +889,7 @@ def run_sequence(ctx, ops, pairs, stream, dump_every=0, watch=(), probe=(), tag=
         history = []
         oracle = Oracle(oracle_ctx or ctx, sut, history, watch, tag) if stream == "ok" else None
         local = [("reset", "ok")]
+        in_model = True
         for n, op in enumerate(ops):
             op = resolve(sut, op)
             if op is None:
@@ -654,6 +900,7 @@ def run_sequence(ctx, ops, pairs, stream, dump_every=0, watch=(), probe=(), tag=
             if oracle:
                 oracle.before(op)
             line, out, raw = sut.apply(op)
+            in_model = in_model and modelled(line)
             local.append((line, out))
             ctx.count(f"op:{op[0]}")
             if isinstance(raw, BaseException):
@@ -671,46 +918,92 @@ def run_sequence(ctx, ops, pairs, stream, dump_every=0, watch=(), probe=(), tag=
                 local.append(("dump", sut.dump()))
         if oracle and (watch or probe):
             oracle.finish(probe)
-        if pairs is not None:
+        if pairs is not None and in_model:
             local.append(("dump", sut.dump()))
             pairs.extend(local)
+        elif pairs is not None:
+            ctx.count("histories-outside-the-model(oracle-only)")
         return oracle or True
     finally:
         sut.close()
 
 
-def op_json(op):
-    def j(x):
-        if isinstance(x, _uuid.UUID):
-            return {"uuid": x.int}
-        if isinstance(x, tuple):
-            return {"addr": list(x)}
-        if isinstance(x, dict):
-            return {"patch": [[k, j(v)] for k, v in x.items()]}
-        if isinstance(x, bytes):
-            return {"bytes": x.hex()}
-        if isinstance(x, list):
-            return {"list": [j(y) for y in x]}
-        return x
+def _plain(x) -> bool:
+    return x is None or type(x) in (bool, int, str)
 
-    return [j(x) for x in op]
+
+def jv(x):
+    """JSON form of a value / address / patch argument of an operation (replay files)"""
+    if _plain(x):
+        return x
+    if isinstance(x, _uuid.UUID):
+        return {"uuid": x.int}
+    if type(x) is float:
+        return {"float": repr(x)}
+    if isinstance(x, bytes):
+        return {"bytes": x.hex()}
+    if type(x) is Str:
+        return {"strsub": str(x)}
+    if type(x) is Int:
+        return {"intsub": int(x)}
+    if isinstance(x, (Addr2, Addr4)):
+        return {"namedtuple": [jv(y) for y in x]}
+    if type(x) is tuple:
+        return {"addr": list(x)} if all(_plain(y) for y in x) else {"tuple": [jv(y) for y in x]}
+    if type(x) is list:
+        return {"list": [jv(y) for y in x]}
+    if type(x) is dict:
+        return {"patch": [[jv(k), jv(v)] for k, v in x.items()]}
+    if isinstance(x, Px):
+        return {"px": x.kind, "items": [[jv(k), jv(v)] for k, v in x.items]}
+    if isinstance(x, (set, frozenset)):
+        return {"set": sorted((jv(y) for y in x), key=repr)}
+    return {"repr": repr(x)}
+
+
+def uj(x):
+    if isinstance(x, list):
+        return [uj(y) for y in x]
+    if not isinstance(x, dict):
+        return x
+    if "uuid" in x:
+        return _uuid.UUID(int=x["uuid"])
+    if "float" in x:
+        return float(x["float"])
+    if "bytes" in x:
+        return bytes.fromhex(x["bytes"])
+    if "strsub" in x:
+        return Str(x["strsub"])
+    if "intsub" in x:
+        return Int(x["intsub"])
+    if "namedtuple" in x:
+        v = [uj(y) for y in x["namedtuple"]]
+        return Addr2(*v) if len(v) == 2 else Addr4(*v)
+    if "addr" in x:
+        return tuple(x["addr"])
+    if "tuple" in x:
+        return tuple(uj(y) for y in x["tuple"])
+    if "list" in x:
+        return [uj(y) for y in x["list"]]
+    if "patch" in x:
+        return {_key(uj(k)): uj(v) for k, v in x["patch"]}
+    if "px" in x:
+        return Px(x["px"], [(_key(uj(k)), uj(v)) for k, v in x["items"]])
+    if "set" in x:
+        return {_key(uj(y)) for y in x["set"]}
+    return x
+
+
+def _key(k):
+    return tuple(k) if isinstance(k, list) else k
+
+
+def op_json(op):
+    return [jv(x) for x in op]
 
 
 def op_unjson(o):
-    def u(x):
-        if isinstance(x, dict) and "uuid" in x:
-            return _uuid.UUID(int=x["uuid"])
-        if isinstance(x, dict) and "addr" in x:
-            return tuple(x["addr"])
-        if isinstance(x, dict) and "patch" in x:
-            return {k: u(v) for k, v in x["patch"]}
-        if isinstance(x, dict) and "bytes" in x:
-            return bytes.fromhex(x["bytes"])
-        if isinstance(x, dict) and "list" in x:
-            return [u(y) for y in x["list"]]
-        return x
-
-    return tuple(u(x) for x in o)
+    return tuple(uj(x) for x in o)
 
 
 # ------------------------------------------------------------------------------------------------
@@ -1143,6 +1436,8 @@ def random_op(rng, sut, stream, pool=DEFAULT_POOL):
 
     nobj = len(sut.created)
     ref = rng.randrange(nobj) if nobj else None
+    if pool.get("bad") and rng.random() < pool["bad"]:
+        return random_bad_op(rng, ref, addrs)
     c = rng.randrange(100)
     if c < 30 or ref is None:
         return ("mi", rng.choice(addrs), rng.random() < 0.5, patch())
@@ -1158,7 +1453,7 @@ def random_op(rng, sut, stream, pool=DEFAULT_POOL):
             v = rng.choice(vals)
         return ("ma", name, v)
     if c < 58:
-        return ("mip", rng.choice([a[0] for a in addrs[:4]] + ["", "10.0.0.9"]))
+        return ("mip", rng.choice([host_of(a) for a in addrs[:4]] + ["", "10.0.0.9"]))
     if c < 66:
         return ("mu", _uuid.UUID(int=rng.randrange(nobj + 2)) if rng.random() < 0.9 else rng.choice([5, None]))
     if c < 78:
@@ -1166,6 +1461,231 @@ def random_op(rng, sut, stream, pool=DEFAULT_POOL):
     if c < 86:
         return ("del", ref, rng.choice(dyn))
     return ("patch", ref, patch())
+
+
+def host_of(a):
+    """`address[0]` where the address has one, as a str"""
+    if isinstance(a, (tuple, list)) and a and isinstance(a[0], str):
+        return a[0]
+    return ""
+
+
+# ------------------------------------------------------------------------------------------------
+# error path: arguments on which a call raises (or may raise)
+
+BAD_KEY_PATCHES = [
+    # a key that is no str: hasattr(self, key) raises TypeError - at the first, a middle, the last position
+    {1: 2},
+    {None: 1},
+    {True: "x"},
+    {1.5: "x"},
+    {b"k": 1},
+    {("k",): 1},
+    {"k": 5, 1: 2},
+    {1: 2, "k": 5},
+    {"callsign": "X", "k": 6, 2: 3, "m": 7},
+    {"k": 5, "dmr_id": 9, None: 0},
+    {"dmr_id": 11, "rx_freq": 430000000, "p2p_is_registered": True, 0: 0},
+    {"snmp_enabled": False, ("a", 1): 1, "nat_enabled": True},
+]
+NON_MAPPING_PATCHES = [
+    Px("pairs", [("k", 5)]),  # a list of pairs: len() works, .items() does not
+    Px("pairs", [("dmr_id", 9), ("k", 5)]),
+    Px("tpairs", [("k", 5)]),
+    Px("str", [("a", 0), ("b", 0)]),
+    Px("bytes", [("a", 0)]),
+    Px("set", [("k", 0)]),
+    Px("pairs", []),  # empty: save() returns before patching, Repeater.patch raises
+    Px("str", []),
+    Px("none"),
+    Px("int", [("k", 1)]),
+    Px("int"),
+    Px("gen", [("k", 5)]),
+]
+MAPPING_PATCHES = [  # well formed: other mapping types behave as a dict
+    Px("ordered", [("k", 5), ("dmr_id", 9)]),
+    Px("dictsub", [("k", 6)]),
+    Px("defaultdict", [("m", "v"), ("callsign", "OK1X")]),
+    Px("proxy", [("k", 7), ("m", None)]),
+    Px("userdict", [("serial", "S1"), ("k", 8)]),
+    Px("chainmap", [("k", 9)]),
+    Px("ordered", []),
+    Px("proxy", []),
+    Px("userdict", [("k", 5), (1, 2)]),  # ... and can carry a key that is no str as well
+    Px("ordered", [(None, 1), ("k", 5)]),
+    {Str("k"): 5, Str("callsign"): "OK1Y"},  # keys that are str subclass instances name the same member / attribute
+    Px("failing", [("k", 5), ("dmr_id", 9)]),  # .items() raises RuntimeError after the last entry
+    Px("failing", []),
+]
+BAD_PATCHES = BAD_KEY_PATCHES + NON_MAPPING_PATCHES
+UNHASHABLE = [[1], {"a": 1}, ["k"], set()]
+BAD_ADDRESSES = [None, 5, (), ("10.0.0.1",), [], "10.0.0.1", ("10.0.0.1", 50000, 0), b"\x0a\x00\x00\x01", (None, None), 1.5]
+
+
+def bad_ops(addr_seen, addr_seen2, addr_unseen):
+    """operations that raise (or may raise) on the unchanged code, of every kind; references 0 / 1 are the two records of
+    the prefix"""
+    out = []
+    for p in BAD_PATCHES + MAPPING_PATCHES:
+        out += [("mi", addr_seen, True, p), ("mi", addr_seen, False, p), ("mi", addr_unseen, True, p), ("mi", addr_unseen, False, p),
+                ("save", 0, p), ("save", None, p), ("patch", 1, p)]
+    for k in UNHASHABLE:
+        out += [("attr", 0, k, "v"), ("attr", 0, k, None), ("del", 1, k), ("ma", k, 1), ("mu", k), ("mip", k), ("ma", "address_in", k)]
+    out += [("attr", 0, 1, "v"), ("attr", 0, None, "v"), ("attr", 0, ("k", 1), 7), ("del", 0, "missing"), ("del", 0, 1), ("del", 1, None)]
+    out += [("ma", 1, 5), ("ma", None, None), ("ma", b"id", 1), ("ma", "nope", 1), ("ma", "", 1), ("ma", "address_in", None)]
+    out += [("mu", None), ("mu", 5), ("mu", "0"), ("mu", _uuid.UUID(int=99)), ("mip", None), ("mip", 5), ("mip", ("10.0.0.1",))]
+    for a in BAD_ADDRESSES:
+        out += [("mi", a, False, {}), ("mi", a, False, {"k": 1}), ("mi", a, True, {}), ("mi", a, True, {"k": 1}), ("mi", a, True, {1: 2})]
+    return out
+
+
+def random_bad_op(rng, ref, addrs):
+    a = rng.choice(addrs)
+    c = rng.randrange(12)
+    if c < 5 or ref is None:
+        return ("mi", a if c else rng.choice(BAD_ADDRESSES[:5] + [a]), rng.random() < 0.6, rng.choice(BAD_PATCHES + MAPPING_PATCHES))
+    if c < 7:
+        return ("save", rng.choice([ref, ref, None]), rng.choice(BAD_PATCHES + MAPPING_PATCHES))
+    if c < 9:
+        return ("patch", ref, rng.choice(BAD_PATCHES + MAPPING_PATCHES))
+    if c == 9:
+        return rng.choice([("attr", ref, rng.choice(UNHASHABLE), "v"), ("del", ref, rng.choice(UNHASHABLE + ["missing", 1])), ("attr", ref, 1, "v")])
+    if c == 10:
+        return rng.choice([("ma", 1, 5), ("ma", None, None), ("ma", "nope", 1), ("ma", rng.choice(UNHASHABLE), 1)])
+    return rng.choice([("mu", None), ("mu", _uuid.UUID(int=99)), ("mu", rng.choice(UNHASHABLE)), ("mip", None), ("mip", 5)])
+
+
+ERR_PREFIX = [("mi", A0, True, {"k": 1, "dmr_id": 7}), ("mi", A1, True, {"m": 2}), ("attr", 0, "p2p_is_registered", True)]
+ERR_SUFFIX = [
+    ("mi", A0, False, {}), ("mi", A1, False, {}), ("mu", _uuid.UUID(int=0)), ("mu", _uuid.UUID(int=1)), ("ma", "dmr_id", 7),
+    ("attr", 0, "k", None), ("attr", 0, "p2p_is_registered", None), ("attr", 1, "m", None), ("mi", A0, True, {"z": 9}), ("mi", A2, True, {}),
+    ("mi", A2, False, {"y": 1}), ("mi", A1, True, {}), ("mu", _uuid.UUID(int=0)),
+]
+
+
+def run_errors(ctx, pairs):
+    """every kind of raising call (a) after a prefix with two records, (b) twice in a row, (c) as the FIRST call on a fresh
+    storage - each followed by lookups of every earlier record by address, by id, by dmr_id, reads of its attributes, and
+    further patches / creations.  The oracle re-checks all records after every operation."""
+    rng = ctx.rng
+    ops = bad_ops(A0, A1, A2)
+    n = 0
+    for i, bad in enumerate(ops):
+        variants = [ERR_PREFIX + [bad] + ERR_SUFFIX, [bad] + ERR_PREFIX[:2] + ERR_SUFFIX[:6]]
+        if i % 3 == ctx.seed % 3:
+            other = ops[rng.randrange(len(ops))]
+            variants.append(ERR_PREFIX + [bad, bad, other] + ERR_SUFFIX)
+        for k, h in enumerate(variants):
+            sut_ok = run_sequence(ctx, h, pairs, "ok", tag="errors")
+            if not sut_ok:
+                ctx.count("errors:inapplicable")  # the first call on an empty storage names record 0
+                continue
+            n += 1
+            ctx.case(("errors", i, k), sample={"class": "errors", "raising call": op_json(bad), "history length": len(h)} if (i, k) == (7, 0) else None)
+        ctx.count(f"errors:kind:{bad[0]}")
+        if pairs is not None and len(pairs) > 200000:
+            flush(ctx, "storage.errors", pairs)
+    ctx.count("errors:systematic-histories", n)
+    return n
+
+
+# ------------------------------------------------------------------------------------------------
+# argument provenance: the shapes in which a peer address reaches the storage
+
+
+def shape_family(h, p):
+    """[(name, address)] around one (host, port): what datagram_received / an application can hand over.  Which of them are
+    the same peer is decided by Python's == alone (the unchanged code compares `address_in == address`)."""
+    h2 = h[:-1] + ("2" if h[-1] != "2" else "3")
+    fam = [
+        ("tuple2", (h, p)),
+        ("tuple4", (h, p, 0, 0)),  # AF_INET6: (host, port, flowinfo, scope_id)
+        ("tuple4-scope", (h, p, 0, 3)),
+        ("tuple4-flow", (h, p, 7, 0)),
+        ("tuple4-flow-scope", (h, p, 7, 3)),
+        ("tuple4-port", (h, p + 1, 0, 0)),
+        ("tuple4-host", (h2, p, 0, 0)),
+        ("list2", [h, p]),
+        ("list4", [h, p, 0, 0]),
+        ("list4-scope", [h, p, 0, 3]),
+        ("namedtuple2", Addr2(h, p)),
+        ("namedtuple4", Addr4(h, p, 0, 0)),
+        ("namedtuple4-scope", Addr4(h, p, 0, 3)),
+        ("str-subclass-host", (Str(h), p)),
+        ("int-subclass-port", (h, Int(p))),
+        ("str-subclass-host4", (Str(h), Int(p), 0, 3)),
+        ("port-as-text", (h, str(p))),
+        ("port-as-float", (h, float(p))),
+        ("tuple1", (h,)),
+        ("tuple3", (h, p, 0)),
+        ("tuple5", (h, p, 0, 0, 0)),
+        ("bytes-host", (h.encode(), p)),
+        ("nested", ((h, p), 0)),
+        ("bare-host", h),
+        ("tuple2-other-port", (h, p + 1)),
+        ("tuple2-other-host", (h2, p)),
+    ]
+    if p in (0, 1):
+        fam.append(("port-as-bool", (h, bool(p))))
+    return fam
+
+
+SHAPE_BASES = [("fe80::1", 50000), ("10.0.0.1", 1), ("::1", 0)]
+
+
+def shape_history(x, y):
+    hx = host_of(x) or "nohost"
+    return [
+        ("mi", x, True, {"k": 1}),
+        ("mi", y, True, {"m": 2}),
+        ("mi", x, False, {}),
+        ("mi", y, False, {"n": 3}),
+        ("mi", x, True, {"dmr_id": 5}),
+        ("ma", "address_in", y),
+        ("mip", hx),
+        ("mi", y, True, {}),
+        ("mi", x, False, {}),
+    ]
+
+
+def run_shapes(ctx, pairs):
+    """every ordered pair of address shapes around each base in one history (same peer iff ==), then all shapes of a base in
+    one history, looked up again in reverse order"""
+    n = 0
+    for bi, (h, p) in enumerate(SHAPE_BASES):
+        fam = shape_family(h, p)
+        classes = []
+        for _, a in fam:
+            if not any(a == c for c in classes):
+                classes.append(a)
+        ctx.count(f"shapes:base{bi}:shapes", len(fam))
+        ctx.count(f"shapes:base{bi}:distinct-peers", len(classes))
+        for (nx, x), (ny, y) in itertools.product(fam, repeat=2):
+            if bi and not (nx.startswith("tuple4") or ny.startswith("tuple4") or "port-as" in nx + ny):
+                continue  # the other bases: the pairs involving a 4-tuple or a port spelling
+            ok = run_sequence(ctx, shape_history(x, y), pairs, "ok", tag=f"shapes:{nx}/{ny}")
+            assert ok
+            n += 1
+            ctx.case(("shapes", bi, nx, ny), sample={"class": "shapes", "first": jv(x), "second": jv(y), "same peer": bool(x == y)} if (bi, nx, ny) == (0, "tuple4", "tuple4-scope") else None)
+            ctx.count("shapes:pair:same-peer" if x == y else "shapes:pair:different-peers")
+        allh = [("mi", a, True, {"k": i}) for i, (_, a) in enumerate(fam)] + [("mi", a, False, {}) for _, a in reversed(fam)] + [("mi", a, True, {"m": i}) for i, (_, a) in enumerate(fam)]
+        o = run_sequence(ctx, allh, pairs, "ok", tag="shapes:all")
+        assert o
+        if len(o.sut.storage) != len(classes) and not o.nfail:
+            o.fail("creation-rule", f"{len(fam)} address shapes forming {len(classes)} classes of equal addresses", expected=len(classes), actual=len(o.sut.storage))
+        ctx.case(("shapes:all", bi))
+        if pairs is not None and len(pairs) > 200000:
+            flush(ctx, "storage.shapes", pairs)
+    ctx.count("shapes:pair-histories", n)
+
+
+def shape_pool(rng):
+    """a pool of addresses for random histories: a few shapes of one base, at least one pair of equal ones and one IPv6 pair
+    differing in the scope id only"""
+    h, p = rng.choice(SHAPE_BASES)
+    fam = [a for _, a in shape_family(h, p)]
+    pick = [(h, p, 0, 0), (h, p, 0, 3), rng.choice([Addr4(h, p, 0, 3), [h, p, 0, 3], (Str(h), Int(p), 0, 3)]), (h, p)] + rng.sample(fam, 4)
+    return {"addrs": pick, "vals": DEFAULT_POOL["vals"], "dyn": DEFAULT_POOL["dyn"]}
 
 
 def run_random(ctx, length, pairs, stream, pool=DEFAULT_POOL, tag="random", watch=()):
@@ -1176,6 +1696,7 @@ def run_random(ctx, length, pairs, stream, pool=DEFAULT_POOL, tag="random", watc
         history = []
         oracle = Oracle(ctx, sut, history, watch, tag if tag != "random" else None) if stream == "ok" else None
         local = [("reset", "ok")]
+        in_model = True
         n = 0
         while n < length:
             op = random_op(ctx.rng, sut, stream, pool)
@@ -1185,6 +1706,7 @@ def run_random(ctx, length, pairs, stream, pool=DEFAULT_POOL, tag="random", watc
             if oracle:
                 oracle.before(op)
             line, out, raw = sut.apply(op)
+            in_model = in_model and modelled(line)
             local.append((line, out))
             ctx.count(f"op:{op[0]}")
             if isinstance(raw, BaseException):
@@ -1201,8 +1723,10 @@ def run_random(ctx, length, pairs, stream, pool=DEFAULT_POOL, tag="random", watc
         if oracle and watch:
             oracle.finish()
         local.append(("dump", sut.dump()))
-        if pairs is not None:
+        if pairs is not None and in_model:
             pairs.extend(local)
+        elif pairs is not None:
+            ctx.count("histories-outside-the-model(oracle-only)")
         ctx.case((tag, stream, tuple(map(str, history))), sample={"stream": stream, "class": tag, "length": length, "first_ops": [op_json(o) for o in history[:4]], "len": len(sut.storage)} if length > 20 and len(ctx.samples) < 12 else None)
     finally:
         sut.close()
@@ -1234,6 +1758,8 @@ SCALE_SHAPES = {
     "ports": (lambda i: ("10.9.9.9", 1024 + i), 0),
     "mixed": (lambda i: (f"172.16.{((i // 5) >> 8) & 255}.{(i // 5) & 255}", 40000 + i % 5), 3),
     "identified": (lambda i: (f"192.168.{(i >> 8) & 255}.{i & 255}", 30000 + i % 7), 1),
+    # AF_INET6 peers: (host, port, flowinfo, scope_id); neighbours share host + port and differ in the scope id only
+    "ips6": (lambda i: (f"fe80::{(i >> 2) >> 16:x}:{(i >> 2) & 0xFFFF:x}", 50000, 0, i & 3), 50),
 }
 
 
@@ -1485,6 +2011,113 @@ class FastClock:
             setattr(self.time, n, f)
 
 
+class RaisingWriter:
+    """a sys.stdout whose every write fails (a closed pipe)"""
+
+    def write(self, *_):
+        raise OSError("stdout is gone")
+
+    def flush(self):
+        raise OSError("stdout is gone")
+
+
+def ambient_histories(rng):
+    hs = [list(h) for h in CORPUS]
+    bad = bad_ops(A0, A1, A2)
+    hs += [ERR_PREFIX + [b] + ERR_SUFFIX for b in rng.sample(bad, 40)]
+    fam = shape_family(*SHAPE_BASES[0])
+    hs += [shape_history(x, y) for (_, x), (_, y) in rng.sample(list(itertools.product(fam, repeat=2)), 40)]
+    return hs
+
+
+def run_ambient(ctx, pairs):
+    """the same small sample under ambient interpreter state: root logger at DEBUG (records collected, nothing printed), a
+    sys.stdout that raises on every write, the global `random` reseeded before every operation"""
+    import logging
+    import sys
+
+    hs = ambient_histories(ctx.rng)
+    root = logging.getLogger()
+    saved_level, saved_disable, saved_stdout, saved_hook = root.level, root.manager.disable, sys.stdout, Sut.hook
+    records = []
+
+    class Collect(logging.Handler):
+        def emit(self, record):
+            records.append(record.getMessage())
+
+    handler = Collect(level=logging.DEBUG)
+    n = 0
+    try:
+        root.addHandler(handler)
+        root.setLevel(logging.DEBUG)
+        logging.disable(logging.NOTSET)
+        sys.stdout = RaisingWriter()
+        Sut.hook = lambda: random.seed(12345)
+        for h in hs:
+            if run_sequence(ctx, h, pairs, "ok", tag="ambient"):
+                n += 1
+                ctx.case(("ambient", n))
+    finally:
+        sys.stdout = saved_stdout
+        Sut.hook = saved_hook
+        root.removeHandler(handler)
+        root.setLevel(saved_level)
+        logging.disable(saved_disable)
+    ctx.count("ambient:histories(logger DEBUG, stdout raising, random reseeded)", n)
+    ctx.count("ambient:log-records-collected", len(records))
+
+
+class MiniCtx(Sink):
+    """what the streams need of a run context, for the child process"""
+
+    def __init__(self, seed):
+        super().__init__()
+        self.seed = seed
+        self.rng = random.Random(f"C20:child:{seed}")
+        self.search_only = True
+        self.driver_ok = False
+        self.samples = []
+
+
+def child_main(seed):
+    """entry point of the `python -O` child: the ambient sample + the systematic error histories, oracle only; prints one
+    JSON line"""
+    import logging
+
+    logging.disable(logging.CRITICAL)
+    c = MiniCtx(seed)
+    n = 0
+    for h in ambient_histories(c.rng):
+        n += bool(run_sequence(c, h, None, "ok", tag="python -O"))
+    n += run_errors(c, None)
+    print(json.dumps({"histories": n, "optimize": __import__("sys").flags.optimize, "failures": c.failures[:5]}, default=str))
+
+
+def run_child_optimized(ctx):
+    """one child process `python -O` (assert statements stripped, __debug__ False)"""
+    import os
+    import subprocess
+    import sys
+
+    here = os.path.dirname(os.path.dirname(os.path.abspath(__file__)))
+    code = f"import sys; sys.path.insert(0, {here!r}); import props.c20 as m; m.child_main({ctx.seed})"
+    try:
+        r = subprocess.run([sys.executable, "-O", "-c", code], capture_output=True, text=True, timeout=300)
+        out = json.loads(r.stdout.strip().splitlines()[-1])
+    except Exception as e:  # noqa: infrastructure, not a verdict
+        ctx.notes.append(f"python -O child did not run: {type(e).__name__}")
+        ctx.count("ambient:python-O-child-unavailable")
+        return
+    ctx.count("ambient:python-O-histories", out["histories"])
+    if out.get("optimize") != 1:
+        ctx.count("ambient:python-O-child-not-optimized")
+    for f in out["failures"]:
+        ctx.count(f"oracle-failure:{f['kind']}")
+        inp = dict(f["input"], python_O=True)
+        ctx.fail(f["kind"], inp, "under python -O: " + str(f["what"]), expected=f["expected"], actual=f["actual"])
+    ctx.case(("python -O", out["histories"]))
+
+
 # historically interesting inputs first (none of them fails on the unchanged tree)
 CORPUS = [
     # two peers sharing an IP: distinct records, the IP lookup returns the first
@@ -1548,7 +2181,18 @@ def _run(ctx):
         "space, port mod 65536, IPv6 spellings); WIDE records (300 attributes, a patch of 1100 entries, 5000-character values); "
         "SCALE: 1500 records in quick / 20000 in thorough (distinct IPs, one IP with many ports, mixed; identified fraction 0 ... 1), "
         "lookups of the oldest / middle / newest records interleaved and at the end, full comparison of every record at powers "
-        "of two and every 500 records. Stream 'ok' respects the two preconditions of the theorems (no patch assigns id; "
+        "of two and every 500 records; 10 000 (quick) / 33 000 (thorough) IPv6 4-tuple records oracle-only. ADDRESS SHAPES "
+        "(argument provenance): every ordered pair of ~26 shapes of one peer address - (host, port), AF_INET6 4-tuples equal / "
+        "differing in flowinfo, scope id, port, host, lists, namedtuples, str / int subclasses, port as text / float / bool, "
+        "1- / 3- / 5-tuples, bytes host, bare str - in one history (same peer iff ==), all shapes in one history, random histories "
+        "over pools of shapes; patches of other mapping types. ERROR PATH: ~340 raising calls of every operation kind (keys that "
+        "are no str at the first / a middle / the last position, non-mapping patches: list of pairs, str, set, None, int, "
+        "generator; unhashable attribute keys, non-str names, None / int / wrong-arity addresses) on seen / unseen addresses "
+        "with / without auto-create, after a two-record prefix, twice in a row, and as the FIRST call on a fresh storage, each "
+        "followed by lookups of every earlier record by address / id / dmr_id and reads of its attributes; after a raising call "
+        "the matched record may carry some of the named entries (exactly as given), nothing else may differ; random histories "
+        "with 10-50 % raising calls. AMBIENT: a fixed sample with the root logger at DEBUG, a sys.stdout that raises, `random` "
+        "reseeded before every call, and once in a child `python -O`. Stream 'ok' respects the two preconditions of the theorems (no patch assigns id; "
         "address_in is only assigned a value no other record holds) and is checked against the property as stated (incl. "
         "attr() read back through the public API after every operation), stream 'cross' crosses them and is checked for "
         "model = code and unique dictionary keys. A history is distinct by its operation list; non-trivial = at least one "
@@ -1565,7 +2209,9 @@ def _run(ctx):
     ctx.assumptions += [
         "A1: patch keys and match_attr names are data member names of Repeater or names that are no attribute of it at all "
         "(a key such as 'attr', 'patch', 'logger' or '__class__' would overwrite a method/member by setattr)",
-        "A2: values are None, ints/bools, strings, (str,int) tuples, UUIDs (== is structural on them; bool is int)",
+        "A2: values are None, ints/bools, strings, (str,int) tuples, UUIDs, and the address shapes (str,int,...) / [str,int,...] / (str,str) "
+        "(== is structural on them; bool is int); histories with other values, non-str attr()/delete_attr keys, unsized or empty "
+        "non-mapping patches run against the oracle alone",
         "A3: save/attr/delete_attr/patch are applied to objects obtained from the storage (as the protocol handlers do) or, for save, None",
         "P1/P2 (theorem hypotheses, stream 'ok'): no patch assigns id; address_in is only assigned a value no other stored record holds",
     ]
@@ -1637,6 +2283,26 @@ def _run(ctx):
     ctx.case(("addresses:all", len(ADDRESS_FAMILY)))
     flush(ctx, "storage.addresses", pairs)
     mark("values+addresses")
+    # ---- argument provenance: the shapes in which a peer address arrives (same peer iff the addresses are ==)
+    run_shapes(ctx, pairs)
+    for i in range(budget(60, 1500, 180)):
+        run_random(ctx, rng.choice([8, 20, 50]), pairs, "ok", shape_pool(rng), tag="shapes:random")
+    flush(ctx, "storage.shapes", pairs)
+    mark("shapes")
+    # ---- error path: calls that raise, after which the history continues
+    run_errors(ctx, pairs)
+    for i in range(budget(120, 3000, 360)):
+        pool = dict(DEFAULT_POOL if i % 3 else shape_pool(rng), bad=rng.choice([0.1, 0.25, 0.5]))
+        run_random(ctx, rng.choice([6, 15, 40, 100]), pairs, "ok", pool, tag="errors:random")
+        if len(pairs) > 200000:
+            flush(ctx, "storage.errors", pairs)
+    flush(ctx, "storage.errors", pairs)
+    mark("errors")
+    # ---- ambient interpreter state
+    run_ambient(ctx, pairs)
+    flush(ctx, "storage.ambient", pairs)
+    run_child_optimized(ctx)
+    mark("ambient")
     # ---- time passes (a day per reading of the clock) / the caller keeps no reference to the records
     with FastClock():
         for seq in CORPUS:
@@ -1655,11 +2321,12 @@ def _run(ctx):
     # The model (list based, cubic) follows up to 1500 records in quick / 2000 in thorough; beyond that the oracle alone.
     salt = ctx.seed
     if quick:
-        plan = [("ips", 1500 + ctx.seed % 7, True), ("ports", 1150, False), ("mixed", 700, False), ("identified", 300, False)]
+        plan = [("ips", 1500 + ctx.seed % 7, True), ("ports", 1150, False), ("mixed", 700, False), ("identified", 300, False), ("ips6", 10000 + ctx.seed % 7, False)]
         if ctx.boost > 1:
             plan += [("ports", 3000, False), ("identified", 1300, False)]
     else:
-        plan = [("ips", 20000 + ctx.seed % 7, False), ("ports", 6000, False), ("mixed", 5000, False), ("identified", 2500, False), ("ips", 2000, True), ("ports", 1300, True)]
+        # (every auto-creating lookup scans all records: n records cost n^2 / 2 comparisons - 33 000 is what fits the tier)
+        plan = [("ips6", 33000 + ctx.seed % 7, False), ("ips", 20000 + ctx.seed % 7, False), ("ports", 6000, False), ("mixed", 5000, False), ("identified", 2500, False), ("ips", 2000, True), ("ports", 1300, True)]
     for shape, n, with_model in plan:
         failure = run_scale(ctx, shape, n, salt, pairs, with_model and not ctx.search_only and ctx.driver_ok)
         flush(ctx, f"storage.scale.{shape}", pairs)
@@ -1777,7 +2444,7 @@ def _replay(obj):
             if oracle:
                 oracle.before(op)
             line, out, raw = sut.apply(op)
-            in_model = in_model and modelled(op)
+            in_model = in_model and modelled(line)
             lines.append(line)
             if len(hist) <= 40 or len(lines) > len(hist) - 6:
                 print(f"implementation  {line[:90]:90s} -> {out}")
